@@ -337,6 +337,7 @@ impl Monitor for C01 {
     }
     fn mandatory(&self) -> Vec<&'static str> {
         vec![
+            "migrations_run",
             "ok_transfer",
             "ok_send",
             "ok_mint",
@@ -368,7 +369,13 @@ impl Monitor for C01 {
         }
         let mut c = Cw20::new(&mut h.rng);
         let hostile = h.rng.chance(1, 3);
-        let cfg = gen_init(&mut h.rng, !hostile);
+        let mut cfg = gen_init(&mut h.rng, !hostile);
+        if h.idx % 14 == 3 {
+            // more holders than one listing page in a history that migrates later
+            let n = h.rng.range(11, 45) as usize;
+            add_holders(&mut h.rng, &mut cfg, n);
+            h.out.count("migrating_tokens_with_more_than_ten_holders");
+        }
         let r = c.instantiate(&cfg);
         h.out.evaluations += 1;
         h.note(format!("instantiate {:?} => {}", cfg, r.class()));
@@ -402,7 +409,36 @@ impl Monitor for C01 {
             return;
         }
         let n = h.tier.pick(80, 120);
-        for _ in 0..n {
+        let migrate_at = if h.idx % 7 == 3 { h.rng.range(3, 60) } else { u64::MAX };
+        for i in 0..n {
+            if i == migrate_at {
+                // upgrade of a token deployed by an older release: supply, balances and their equality survive it
+                let v = *h.rng.pick(&["0.13.4", "0.9.1", "0.13.0", "0.2.3", "1.1.2", "2.0.0"]);
+                if v.starts_with("0.") {
+                    let keys: Vec<Vec<u8>> = c.w.store.data.keys().filter(|k| k.windows(17).any(|w| w == b"allowance_spender")).cloned().collect();
+                    for k in keys {
+                        c.w.store.data.remove(&k);
+                    }
+                }
+                cw2::set_contract_version(&mut c.w.store, "crates.io:cw20-base", v).unwrap();
+                let r = c.w.tx(|deps, env| cw20_base::contract::migrate(deps, env, cw20_base::msg::MigrateMsg {}));
+                h.out.evaluations += 1;
+                h.note(format!("migrate from {v} => {}", r.class()));
+                if r.is_ok() {
+                    h.out.count("migrations_run");
+                }
+                let post = c.snap(false);
+                if !h.check(post.supply == pre.supply && post.bal == pre.bal, "C01/migrate/supply-or-balances-changed-by-migration", || {
+                    format!("migrate from {v}: supply {} -> {}, balances changed: {}", pre.supply, post.supply, post.bal != pre.bal)
+                }) {
+                    return;
+                }
+                if !invariant(h, &post, "migrate") {
+                    return;
+                }
+                pre = post;
+                continue;
+            }
             if h.rng.chance(1, 6) {
                 let snap_for_adv = pre.clone();
                 gen_advance(&mut h.rng, &mut c, &snap_for_adv);
